@@ -1,5 +1,5 @@
 (* C20 — what the correspondence check evaluates on every case. *)
-From Yv Require Export Common.Base C20.Model C20.Spec C20.Tables.
+From Yv Require Export Common.Base C20.Model C20.Spec C20.Tables C20.Getopts.
 
 (* What the virtual shell did with one script: exit status of the built-in
    (negative: the shell panicked or hung), whether nothing was written to the
@@ -40,7 +40,14 @@ Inductive case :=
 (* a built-in with a parser of its own (set, kill, typeset family, getopts,
    the shell's command line): spellings listed as equivalent, and malformed ones *)
 | CBespoke (name : str) (valid : list (list str * outcome)) (malformed : list (list str * outcome))
-           (baseline : outcome).
+           (baseline : outcome)
+(* complete `while getopts RAW name` loops in the virtual shell: the option
+   string, the characters used as unknown options, an abstract invocation
+   (index into the table of the option string followed by the unknown
+   characters, option-argument), the option left without its argument at the
+   end (if any), the operands, and one run per spelling *)
+| CGetopts (raw : str) (unknown : list N) (os : list cocc) (missing : option nat)
+           (ops : list str) (runs : list grun).
 
 Definition outcome_eqb (a b : outcome) : bool :=
   Z.eqb (out_status a) (out_status b) && Bool.eqb (out_stderr_empty a) (out_stderr_empty b)
@@ -116,6 +123,20 @@ Definition run_shell (valid malformed : list (list str * outcome)) (base : outco
       end
   end.
 
+Fixpoint run_getopts (raw : str) (unknown : list N) (os : list cocc) (missing : option nat)
+    (ops : list str) (runs : list grun) (acc : verdict) : verdict :=
+  match runs with
+  | [] => acc
+  | r :: runs' =>
+      (* the expectation only makes sense for a spelling of the invocation *)
+      if negb (gspelling_ok raw unknown os missing ops (g_args r)) then 99%N
+      else match oracle_getopts raw unknown os missing ops r with
+           | Some k => (2 + k)%N
+           | None => run_getopts raw unknown os missing ops runs'
+                       (if model_agrees raw r then acc else 1%N)
+           end
+  end.
+
 Definition run_case (c : case) : verdict :=
   match c with
   | CParse specs m args r => run_parse specs m args r
@@ -131,6 +152,7 @@ Definition run_case (c : case) : verdict :=
          && forallb (fun p => match canon (parse specs m (fst p)) with
                               | None => true | Some _ => false end) malformed)
   | CBespoke _ valid malformed base => run_shell valid malformed base true
+  | CGetopts raw unknown os missing ops runs => run_getopts raw unknown os missing ops runs 0%N
   end.
 
 Definition run_cases := run_cases_with run_case.
